@@ -81,6 +81,7 @@ def measure(ctx, n_detached, angles, n_vertex):
 def run(ctx):
     validate_reference(ctx)
     c05.corr_stokes(ctx, 20 if ctx.tier == 'quick' else 400)
+    c05.corr_universal(ctx, 20 if ctx.tier == 'quick' else 400)
     if ctx.tier == 'quick':
         measure(ctx, 15, [45, 60, 75, 90, 100, 120, 150], 3)
     else:
